@@ -231,7 +231,7 @@ PROPS["C18"] = dict(
 )
 
 PROPS["C19"] = dict(
-    units=["chaos"],
+    units=["chaos", "builders4"],
     kani=[dict(name="chaos_float_facts", crate="leaves", harness="chaos_float_facts", tags=["C19"], claim="IEEE facts assumed by the chaos unit: !(1.0 < r) for r in [0,1]; x < 1.0 for x in [0,1); 1.0 > 0.0")],
     title="Chaos injection is reproducible and bounded; injected errors skip the inner call",
     level_text="Deductive proof (Verus) on the whole real body of Chaos::call with the f64 comparisons and the generator calls rewritten to named shims: an injected error means no inner call and no latency and the error is the "
